@@ -224,6 +224,18 @@ fn sweep_items(_tier: Tier) -> Box<dyn Iterator<Item = Case>> {
         v.push(Case::HexInput(vec![b'g'; len]));
         v.push(Case::Slice(full[..core::cmp::min(len, 100)].to_vec()));
     }
+    // a valid 64-digit string with something attached in front or behind (line terminators, blanks, NUL, a sign, a
+    // radix prefix, one more digit): "exactly the 64-character strings"
+    for (k, extra) in ["\n", "\r\n", "\r", " ", "\t", "\0", "0", "a", "F", "+", "-", "0x", "h", "\u{a0}", "\u{feff}", "\n\n", "  "].iter().enumerate() {
+        let good = hex_lower(&base(20_000 + k as u64));
+        let upper = good.to_ascii_uppercase();
+        for g in [&good, &upper] {
+            v.push(Case::HexInput(format!("{}{}", g, extra).into_bytes()));
+            v.push(Case::HexInput(format!("{}{}", extra, g).into_bytes()));
+            v.push(Case::HexInput(format!("{}{}{}", extra, g, extra).into_bytes()));
+            v.push(Case::HexInput(format!("{}{}{}", &g[..32], extra, &g[32..]).into_bytes()));
+        }
+    }
     // all pairs differing in exactly one of the 256 bits, and the equal pair
     for bit in 0..256usize {
         let a = base(5000 + bit as u64);
@@ -295,6 +307,7 @@ fn random_strategy(_tier: Tier) -> BoxedStrategy<Case> {
         2 => prop::collection::vec(crate::gen::select(b"0123456789abcdefABCDEF".to_vec()), 0..=130).prop_map(Case::HexInput),
         1 => prop::collection::vec(any::<u8>(), 0..=130).prop_map(Case::HexInput),
         1 => "\\PC{0,70}".prop_map(|s| Case::HexInput(s.into_bytes())),
+        2 => ("[0-9a-fA-F]{64}", "[ \t\r\n\u{0}+x0-9a-f-]{1,3}", 0u8..3).prop_map(|(h, x, w)| Case::HexInput(match w { 0 => format!("{}{}", h, x), 1 => format!("{}{}", x, h), _ => format!("{}{}{}", &h[..32], x, &h[32..]) }.into_bytes())),
         2 => prop::collection::vec(any::<u8>(), 0..=100).prop_map(Case::Slice),
         3 => (any::<[u8; 32]>(), 0usize..32, any::<u8>(), any::<bool>()).prop_map(|(a, i, x, same)| {
             let mut b = a;
@@ -313,7 +326,7 @@ pub fn subs() -> Vec<Box<dyn DynSub>> {
     vec![
         Box::new(EnumSub::<Case> {
             name: "sweeps",
-            rule: "enumeration: every byte value at every position of a hash (8192 values: to_hex/Display/from_hex/FromStr/[u8;32]/as_bytes/as_slice/from_slice/serde JSON+CBOR sequence form/legacy CBOR byte string/round trip through a non-self-describing bincode-layout format, alone and inside a record); every byte value at every position of an otherwise valid lower- or upper-case hex string (16384 inputs); hex and non-hex strings of every length 0..=130; from_slice for every length 0..=100; all 256 single-bit-different pairs and equal pairs; all 32640 two-bit-different pairs; the same XOR difference in every non-empty set of 16/8/4/2-byte lanes (differences that cancel in a folded comparison); oracle = independent hex codec and byte equality",
+            rule: "enumeration: every byte value at every position of a hash (8192 values: to_hex/Display/from_hex/FromStr/[u8;32]/as_bytes/as_slice/from_slice/serde JSON+CBOR sequence form/legacy CBOR byte string/round trip through a non-self-describing bincode-layout format, alone and inside a record); every byte value at every position of an otherwise valid lower- or upper-case hex string (16384 inputs); hex and non-hex strings of every length 0..=130; valid 64-digit strings with a line terminator / blank / NUL / sign / radix prefix / extra digit attached in front, behind or in the middle; from_slice for every length 0..=100; all 256 single-bit-different pairs and equal pairs; all 32640 two-bit-different pairs; the same XOR difference in every non-empty set of 16/8/4/2-byte lanes (differences that cancel in a folded comparison); oracle = independent hex codec and byte equality",
             items: sweep_items,
             classify,
             check,
